@@ -176,14 +176,42 @@ func TestVerifC10(t *testing.T) {
 			s.lastCm, s.lastMsg = cmid, "PANIC"
 			retry(s, "after-message-of-death", c)
 		}
+		if r == (5*rounds)/6 {
+			// the state is replaced in place while the API keeps running (what InstallSnapshot does
+			// to a follower that fell behind): the API must work on the restored state afterwards
+			*canaryCompactionStart = 0
+			if err := n.raft.Snapshot().Error(); err == nil {
+				if snaps, err := n.fss.List(); err == nil && len(snaps) > 0 {
+					if meta, rc, err := n.fss.Open(snaps[0].ID); err == nil {
+						rerr := n.raft.Restore(meta, rc, 20*time.Second)
+						rc.Close()
+						if rerr == nil {
+							rep.Obs("restore-in-place", 1)
+							for _, x := range ss {
+								if x.alive && x != observer {
+									retry(x, "after-restore-in-place", c)
+								}
+							}
+							// a session created after the restore must be usable through the same API
+							if fresh, _, err := c.createSession(); err == nil {
+								cmid++
+								if code, body, _ := c.post(fresh, "NICK afterrestore", cmid); code != 200 {
+									viol("api-detached-from-restored-state", fmt.Sprintf("POST for a session created after an in-place restore answered %d %.80s", code, body))
+								}
+								c.deleteSession(fresh, []byte(`{"Quitmessage":"x"}`))
+							}
+						} else {
+							rep.Note("raft.Restore: " + rerr.Error())
+						}
+					}
+				}
+			}
+		}
 		if r == (2*rounds)/3 {
 			// snapshot + restart: the marker must survive in the restored state
-			*canaryCompactionStart = 0
-			if base%2 == 0 {
-				// fold the whole log into the serialized state: the marker must come out of the snapshot
-				*canaryCompactionStart = time.Now().Add(3 * time.Hour).UnixNano()
-				rep.Obs("snapshot.with-everything-folded", 1)
-			}
+			// fold the whole log into the serialized state: the marker must come out of the snapshot
+			*canaryCompactionStart = time.Now().Add(3 * time.Hour).UnixNano()
+			rep.Obs("snapshot.with-everything-folded", 1)
 			if err := n.raft.Snapshot().Error(); err != nil && !strings.Contains(err.Error(), "nothing new") {
 				rep.Note("snapshot: " + err.Error())
 			}
